@@ -1,3 +1,1199 @@
-/- stub: model `ReqRes` (to be written) -/
+/-
+L1 (API-call atomic) model of request-response through the ports:
+`iceoryx2/src/port/{client,server}.rs`, `pending_response.rs`, `active_request.rs`, `request_mut.rs`,
+`response_mut.rs`, `response.rs`, the shared `port/details/{sender,receiver}.rs`, the multi-channel
+`iceoryx2-cal/src/zero_copy_connection/{mod,common}.rs` (channel state word, per-channel queues,
+used-chunk lists and borrow counters), the dynamic-config registries (`Iox2.PubSub.Reg`, the
+lowest-free-slot container validated for publish-subscribe) and the receiver's slot-map connection
+storage (`Iox2.SlotMap`).
+
+Every function is a transcription of the Rust function named in its comment.  A chunk's contents
+(request / response header and the payload word) travel with the queue entry (`Msg`): the contents of
+a chunk are taken to be unchanged between send and release (that is C02's subject; the harness
+re-reads everything it holds after every call).  Reference counts, free lists, used-chunk lists and
+loan counters are modelled because they decide loan errors.  Ghost fields (`g…`) are written but never
+read by the transitions.
+-/
+import Iox2.Model.PubSub
 namespace Iox2.ReqRes
+open Iox2.PubSub (Reg firstFree clamp1)
+
+/-! ### association maps (insert-or-replace) -/
+
+abbrev AMap (κ α : Type) := List (κ × α)
+
+namespace AMap
+variable {κ α : Type} [DecidableEq κ]
+
+def get : List (κ × α) → κ → Option α
+  | [], _ => none
+  | (k', v) :: r, k => if k' = k then some v else get r k
+
+def del : List (κ × α) → κ → List (κ × α)
+  | [], _ => []
+  | (k', v) :: r, k => if k' = k then del r k else (k', v) :: del r k
+
+def set (m : List (κ × α)) (k : κ) (v : α) : List (κ × α) := (k, v) :: del m k
+
+end AMap
+
+/-! ### configuration -/
+
+structure Cfg where
+  maxClients : Nat
+  maxServers : Nat
+  maxActive : Nat        -- max_active_requests_per_client
+  respBuf : Nat          -- max_response_buffer_size
+  maxBorrow : Nat        -- max_borrowed_responses_per_pending_response
+  ovReq : Bool           -- enable_safe_overflow_for_requests
+  ovResp : Bool          -- enable_safe_overflow_for_responses
+  ff : Bool              -- enable_fire_and_forget_requests
+  maxLoans : Nat         -- max_loaned_requests
+  cExpired : Nat         -- config: client_expired_connection_buffer
+  sExpired : Nat         -- config: server_expired_connection_buffer
+  defLoanPerReq : Nat := 2   -- config: server_max_loaned_responses_per_request
+deriving Repr
+
+/-- `required_amount_of_chunks_per_client_data_segment` -/
+def Cfg.clientChunks (c : Cfg) (loans active : Nat) : Nat := c.maxServers * (active + active) + loans
+/-- `required_amount_of_chunks_per_server_data_segment` -/
+def Cfg.serverChunks (c : Cfg) (loanPerReq : Nat) : Nat :=
+  c.maxClients * (c.maxActive + c.maxActive) * (c.respBuf + c.maxBorrow + loanPerReq)
+/-- number of response channels of every connection -/
+def Cfg.nChannels (c : Cfg) : Nat := c.clientChunks c.maxLoans c.maxActive
+
+/-- port id: client `n` or server `n` (labels are never reused) -/
+structure Pid where
+  srv : Bool
+  n : Nat
+deriving DecidableEq, Repr
+
+def cid (n : Nat) : Pid := ⟨false, n⟩
+def sid (n : Nat) : Pid := ⟨true, n⟩
+
+/-- contents of a chunk: the request / response header fields and the payload word -/
+structure Msg where
+  client : Nat := 0      -- request header: client id
+  channel : Nat := 0     -- request header: channel id
+  rid : Nat := 0         -- request id (request and response header)
+  server : Nat := 0      -- response header: server id
+  tag : Nat := 0         -- payload
+  -- ghost (responses): the request the sending active request stems from, the response's number
+  -- within that active request, and whether the requesting client was gone when it was sent
+  gClient : Nat := 0
+  gSeq : Nat := 0
+  gStale : Bool := false
+deriving Repr, DecidableEq
+
+structure Entry where
+  chunk : Nat
+  msg : Msg
+deriving Repr, DecidableEq
+
+/-- channel state word: `CHANNEL_STATE_CLOSED`, or a value (`CHANNEL_STATE_OPEN` = 0 / a request id)
+with the disconnect-hint bit -/
+inductive ChState where
+  | closed
+  | id (v : Nat) (hint : Bool)
+deriving Repr, DecidableEq
+
+structure Chan where
+  state : ChState
+  sub : List Entry := []      -- submission queue, oldest first
+  comp : List Nat := []       -- completion queue
+  used : List Bool            -- used chunk list
+  borrow : Nat := 0           -- the receiver object's borrow counter of this channel
+deriving Repr
+
+/-- one zero-copy connection (named after sender and receiver port id) -/
+structure Conn where
+  cap : Nat                   -- submission queue capacity
+  overflow : Bool
+  maxBorrow : Nat
+  chans : List Chan
+  sAtt : Bool := false
+  rAtt : Bool := false
+deriving Repr
+
+/-- `port/details/sender.rs::Sender` with its data segment -/
+structure Snd where
+  n : Nat                     -- number of chunks
+  free : List Nat             -- pool free list (LIFO)
+  rc : List Nat               -- chunk reference counters
+  loanCnt : Nat := 0
+  maxLoans : Nat              -- sender_max_borrowed_chunks
+  conns : List (Option Pid)   -- per registry slot: connected receiver
+  nChan : Nat
+  init : ChState
+  overflow : Bool
+  rMaxBorrow : Nat            -- receiver_max_borrowed_chunks
+deriving Repr
+
+/-- `port/details/receiver.rs::Receiver` -/
+structure Rcv where
+  conns : List (Option Nat)   -- per registry slot: slot-map key
+  storage : SlotMap.St Pid    -- connection storage: key -> sender
+  tbr : List Nat := []        -- to_be_removed_connections
+  tbrCap : Nat
+  nChan : Nat
+  init : ChState
+  cap : Nat                   -- buffer_size
+  overflow : Bool
+  maxBorrow : Nat
+
+/-- a `PendingResponse` (with its `RequestMut`) -/
+structure Pending where
+  label : Nat
+  rid : Nat
+  channel : Nat
+  chunk : Nat
+  tag : Nat
+  gRecv : List Msg := []      -- ghost: responses received through this object
+deriving Repr
+
+/-- a `Response` / the `ChunkDetails` of an `ActiveRequest` -/
+structure Held where
+  key : Nat
+  origin : Pid
+  chunk : Nat
+  channel : Nat
+deriving Repr
+
+structure Client where
+  alive : Bool := true        -- the `Client` object exists
+  ex : Bool := true           -- the shared state exists
+  slot : Nat := 0
+  maxActive : Nat
+  snapCtr : Nat
+  snap : List (Option (Nat × Nat))   -- server_list_state: (server, number_of_responses)
+  chanIds : List Nat          -- available_channel_ids
+  activeCnt : Nat := 0
+  ridCtr : Nat := 0
+  pendings : List Pending := []
+  held : List Held := []
+  usedLabels : List Nat := []   -- harness: labels of pending responses are not reused
+deriving Repr
+
+structure Active where
+  label : Nat
+  det : Held                  -- ChunkDetails (channel 0)
+  connId : Option Nat
+  msg : Msg                   -- the request
+  loans : Nat := 0            -- shared_loan_counter
+  gSent : Nat := 0            -- ghost: responses sent so far
+deriving Repr
+
+structure Server where
+  alive : Bool := true
+  ex : Bool := true
+  slot : Nat := 0
+  loanPerReq : Nat
+  snapCtr : Nat
+  snap : List (Option (Nat × Nat))   -- client_list_state: (client, number_of_requests)
+  actives : List Active := []
+  usedLabels : List Nat := []   -- harness: labels of active requests are not reused
+  gRecvReq : List (Nat × Nat) := []  -- ghost: (client, request id) of every active request handed out
+deriving Repr
+
+structure World where
+  cfg : Cfg
+  clientReg : Reg (Nat × Nat)
+  serverReg : Reg (Nat × Nat)
+  clients : AMap Nat Client := []
+  servers : AMap Nat Server := []
+  snds : AMap Pid Snd := []
+  rcvs : AMap Pid Rcv := []
+  conns : AMap (Pid × Pid) Conn := []      -- key: (sender, receiver)
+  panicked : Bool := false
+
+def World.init (c : Cfg) : World :=
+  { cfg := c, clientReg := Reg.init c.maxClients, serverReg := Reg.init c.maxServers }
+
+/-! ### accessors -/
+
+def getSnd (w : World) (p : Pid) : Option Snd := AMap.get w.snds p
+def setSnd (w : World) (p : Pid) (x : Snd) : World := { w with snds := AMap.set w.snds p x }
+def getRcv (w : World) (p : Pid) : Option Rcv := AMap.get w.rcvs p
+def setRcv (w : World) (p : Pid) (x : Rcv) : World := { w with rcvs := AMap.set w.rcvs p x }
+def getConn (w : World) (f t : Pid) : Option Conn := AMap.get w.conns (f, t)
+def setConn (w : World) (f t : Pid) (x : Conn) : World := { w with conns := AMap.set w.conns (f, t) x }
+def delConn (w : World) (f t : Pid) : World := { w with conns := AMap.del w.conns (f, t) }
+def getCl (w : World) (c : Nat) : Option Client := AMap.get w.clients c
+def setCl (w : World) (c : Nat) (x : Client) : World := { w with clients := AMap.set w.clients c x }
+def getSv (w : World) (s : Nat) : Option Server := AMap.get w.servers s
+def setSv (w : World) (s : Nat) (x : Server) : World := { w with servers := AMap.set w.servers s x }
+
+/-- the sender's `Connection` is dropped -/
+def detachSender (w : World) (f t : Pid) : World :=
+  match getConn w f t with
+  | none => w
+  | some c => if c.rAtt then setConn w f t { c with sAtt := false } else delConn w f t
+
+/-- the receiver's `Connection` is dropped -/
+def detachReceiver (w : World) (f t : Pid) : World :=
+  match getConn w f t with
+  | none => w
+  | some c => if c.sAtt then setConn w f t { c with rAtt := false } else delConn w f t
+
+def newConn (cap : Nat) (overflow : Bool) (maxBorrow nChan n : Nat) (init : ChState) : Conn :=
+  { cap := cap, overflow := overflow, maxBorrow := maxBorrow,
+    chans := List.replicate nChan { state := init, used := List.replicate n false } }
+
+def Conn.chan (c : Conn) (ch : Nat) : Option Chan := c.chans[ch]?
+def Conn.setChan (c : Conn) (ch : Nat) (x : Chan) : Conn := { c with chans := c.chans.set ch x }
+
+/-! ### channel state (`zero_copy_connection/mod.rs`, `ZeroCopyPortDetails`) -/
+
+/-- `set_channel_state`: CAS closed -> state -/
+def Chan.setState (c : Chan) (v : Nat) : Chan :=
+  match c.state with
+  | .closed => { c with state := .id v false }
+  | _ => c
+
+/-- `set_disconnect_hint` -/
+def Chan.setHint (c : Chan) (v : Nat) : Chan :=
+  if c.state = .id v false then { c with state := .id v true } else c
+
+/-- `has_disconnect_hint` -/
+def Chan.hasHint (c : Chan) (v : Nat) : Bool := c.state = .id v true
+
+/-- `has_channel_state` -/
+def Chan.hasState (c : Chan) (v : Nat) : Bool :=
+  match c.state with
+  | .closed => false
+  | .id v' _ => v' = v
+
+/-- `close_channel` -/
+def Chan.close (c : Chan) (v : Nat) : Chan :=
+  if c.hasState v then { c with state := .closed } else c
+
+/-! ### sender side (`sender.rs`) -/
+
+/-- `Sender::release_chunk` -/
+def Snd.releaseChunk (S : Snd) (c : Nat) : Snd :=
+  let old := S.rc.getD c 0
+  let S := { S with rc := S.rc.set c (old - 1) }
+  if old = 1 then { S with free := c :: S.free } else S
+
+/-- `Sender::borrow_chunk` -/
+def Snd.borrowChunk (S : Snd) (c : Nat) : Snd := { S with rc := S.rc.set c (S.rc.getD c 0 + 1) }
+
+/-- drain one completion queue: `reclaim` until empty, `release_chunk` each valid offset -/
+def drainComp (S : Snd) (used : List Bool) : List Nat → Snd × List Bool
+  | [] => (S, used)
+  | c :: r =>
+    if used.getD c false then drainComp (S.releaseChunk c) (used.set c false) r
+    else drainComp S used r
+
+/-- the channel loop of `retrieve_returned_chunks` for one connection -/
+def drainChans (S : Snd) : List Chan → Snd × List Chan
+  | [] => (S, [])
+  | c :: r =>
+    let (S1, used) := drainComp S c.used c.comp
+    let (S2, r') := drainChans S1 r
+    (S2, { c with comp := [], used := used } :: r')
+
+/-- `Sender::retrieve_returned_chunks` over the connection slots -/
+def retrieveFrom (w : World) (p : Pid) : List (Option Pid) → World
+  | [] => w
+  | none :: r => retrieveFrom w p r
+  | some t :: r =>
+    match getSnd w p, getConn w p t with
+    | some S, some c =>
+      let (S', chans) := drainChans S c.chans
+      retrieveFrom (setConn (setSnd w p S') p t { c with chans := chans }) p r
+    | _, _ => retrieveFrom w p r
+
+def retrieveReturned (w : World) (p : Pid) : World :=
+  match getSnd w p with
+  | none => w
+  | some S => retrieveFrom w p S.conns
+
+/-- result of `ZeroCopySender::try_send` -/
+inductive SendRes where
+  | full | corrupted | ok (evicted : Option Nat)
+deriving Repr, DecidableEq
+
+/-- `try_send` of `zero_copy_connection/common.rs` on one channel -/
+def Chan.trySend (c : Chan) (cap : Nat) (overflow : Bool) (e : Entry) : Chan × SendRes :=
+  if !overflow && c.sub.length ≥ cap then (c, .full)
+  else
+    let c := { c with used := c.used.set e.chunk true }
+    if c.sub.length ≥ cap then
+      -- SafelyOverflowingIndexQueue::push on a full queue: the oldest element comes back
+      match c.sub with
+      | [] => ({ c with sub := [e] }, .ok none)               -- capacity 0 cannot be configured
+      | old :: rest =>
+        let c := { c with sub := rest ++ [e] }
+        if c.used.getD old.chunk false then ({ c with used := c.used.set old.chunk false }, .ok (some old.chunk))
+        else (c, .corrupted)
+    else ({ c with sub := c.sub ++ [e] }, .ok none)
+
+/-- `deliver_offset_to_connection_impl` for the connection to `t`; returns whether it was delivered -/
+def deliverTo (w : World) (p t : Pid) (ch : Nat) (e : Entry) : World × Bool :=
+  match getSnd w p, getConn w p t with
+  | some S, some c =>
+    match c.chan ch with
+    | none => (w, false)
+    | some x =>
+      let (x', r) := x.trySend c.cap c.overflow e
+      let w := setConn w p t (c.setChan ch x')
+      match r with
+      | .ok ev =>
+        let S := S.borrowChunk e.chunk
+        let S := match ev with | some old => S.releaseChunk old | none => S
+        (setSnd w p S, true)
+      | _ => (w, false)
+  | _, _ => (w, false)
+
+/-- the connection loop of `Sender::deliver_offset` -/
+def deliverAll (w : World) (p : Pid) (ch : Nat) (e : Entry) : List (Option Pid) → Nat → World × Nat
+  | [], k => (w, k)
+  | none :: r, k => deliverAll w p ch e r k
+  | some t :: r, k =>
+    let (w', ok) := deliverTo w p t ch e
+    deliverAll w' p ch e r (if ok then k + 1 else k)
+
+/-- one used-chunk list of `acquire_used_offsets`: every used chunk, ascending, is released -/
+def releaseAllUsed (S : Snd) (used : List Bool) : Nat → Snd
+  | 0 => S
+  | k + 1 =>
+    let S := releaseAllUsed S used k
+    if used.getD k false then S.releaseChunk k else S
+
+/-- `acquire_used_offsets` over the channels -/
+def releaseChans (S : Snd) : List Chan → Snd
+  | [] => S
+  | c :: r => releaseChans (releaseAllUsed S c.used c.used.length) r
+
+/-- `Sender::remove_connection` -/
+def sndRemoveConn (w : World) (p : Pid) (slot : Nat) : World :=
+  match getSnd w p with
+  | none => w
+  | some S =>
+    match S.conns.getD slot none with
+    | none => w
+    | some t =>
+      let (w, S) := match getConn w p t with
+        | some c =>
+          let S := releaseChans S c.chans
+          (setConn w p t { c with chans := c.chans.map fun (x : Chan) => { x with used := x.used.map fun _ => false } }, S)
+        | none => (w, S)
+      let w := setSnd w p { S with conns := S.conns.set slot none }
+      detachSender w p t
+
+/-- `Sender::create` + `Connection::new` (`create_sender`); `cap` = the receiver's buffer size -/
+def sndCreateConn (w : World) (p : Pid) (slot : Nat) (t : Pid) (cap : Nat) : World :=
+  match getSnd w p with
+  | none => w
+  | some S =>
+    let w := match getConn w p t with
+      | some c => setConn w p t { c with sAtt := true }
+      | none => setConn w p t { newConn cap S.overflow S.rMaxBorrow S.nChan S.n S.init with sAtt := true }
+    setSnd w p { S with conns := S.conns.set slot (some t) }
+
+/-- `Sender::update_connection`; returns the world and whether the slot is tagged -/
+def sndUpdateConn (w : World) (p : Pid) (slot : Nat) (t : Pid) (cap : Nat) : World :=
+  match getSnd w p with
+  | none => w
+  | some S =>
+    match S.conns.getD slot none with
+    | none => sndCreateConn w p slot t cap
+    | some t' => if t' = t then w else sndCreateConn (sndRemoveConn w p slot) p slot t cap
+
+/-- `Sender::finish_update_connection_cycle`: connections of slots that were not visited go -/
+def sndFinish (w : World) (p : Pid) (tagged : List Nat) : Nat → World
+  | 0 => w
+  | k + 1 =>
+    let w := sndFinish w p tagged k
+    if tagged.contains k then w else sndRemoveConn w p k
+
+/-- the `Sender` is dropped: all connections are closed -/
+def sndDestroySlots (w : World) (p : Pid) : List (Option Pid) → World
+  | [] => w
+  | none :: r => sndDestroySlots w p r
+  | some t :: r => sndDestroySlots (detachSender w p t) p r
+
+/-- `Sender::allocate` after `retrieve_returned_chunks`: loan-counter check and pool allocation -/
+inductive AllocRes where
+  | exceedsMaxLoans | outOfMemory | corrupted | ok (chunk : Nat)
+
+def Snd.allocate (S : Snd) : Snd × AllocRes :=
+  if S.loanCnt ≥ S.maxLoans then (S, .exceedsMaxLoans) else
+  match S.free with
+  | [] => (S, .outOfMemory)
+  | c :: rest =>
+    if S.rc.getD c 0 ≠ 0 then (S, .corrupted) else
+    ({ S with free := rest, rc := S.rc.set c 1, loanCnt := S.loanCnt + 1 }, .ok c)
+
+/-- `Sender::return_loaned_chunk` -/
+def Snd.returnLoan (S : Snd) (c : Nat) : Snd :=
+  let S := S.releaseChunk c
+  { S with loanCnt := S.loanCnt - 1 }
+
+/-! ### receiver side (`receiver.rs`) -/
+
+def smGet (m : SlotMap.St Pid) (k : Nat) : Option Pid :=
+  match (SlotMap.step m (.get k)).2.1 with
+  | .some e => some e
+  | _ => none
+def smRemove (m : SlotMap.St Pid) (k : Nat) : SlotMap.St Pid := (SlotMap.step m (.remove k)).1
+def smInsert (m : SlotMap.St Pid) (e : Pid) : SlotMap.St Pid × Option Nat :=
+  match SlotMap.step m (.insert e) with
+  | (m', .key k, _) => (m', some k)
+  | (m', _, _) => (m', none)
+
+def chansHaveData : List Chan → Bool
+  | [] => false
+  | c :: r => !c.sub.isEmpty || chansHaveData r
+def chansHaveBorrows : List Chan → Bool
+  | [] => false
+  | c :: r => decide (c.borrow > 0) || chansHaveBorrows r
+
+/-- `receiver_channels_have_data_or_borrows` of the connection stored under `key` -/
+def connFlags (w : World) (me : Pid) (R : Rcv) (key : Nat) : Option (Bool × Bool) :=
+  match smGet R.storage key with
+  | none => none
+  | some f =>
+    match getConn w f me with
+    | some c => some (chansHaveData c.chans, chansHaveBorrows c.chans)
+    | none => some (false, false)
+
+/-- `connection_storage.remove(key)`: the `Connection` is dropped, the receiver side detaches -/
+def rcvDropConn (w : World) (me : Pid) (key : Nat) : World :=
+  match getRcv w me with
+  | none => w
+  | some R =>
+    match smGet R.storage key with
+    | none => w
+    | some f =>
+      let w := setRcv w me { R with storage := smRemove R.storage key }
+      detachReceiver w f me
+
+/-- `find_connection_with_condition` -/
+def findTbr (w : World) (me : Pid) (R : Rcv) (cond : Bool → Bool → Bool) : List Nat → Nat → Option (Nat × Nat)
+  | [], _ => none
+  | k :: r, n =>
+    match connFlags w me R k with
+    | none => some (n, k)
+    | some (d, b) => if cond d b then some (n, k) else findTbr w me R cond r (n + 1)
+
+/-- `Receiver::prepare_connection_removal` -/
+def rcvPrepareRemoval (w : World) (me : Pid) (slot : Nat) : World :=
+  match getRcv w me with
+  | none => w
+  | some R =>
+    match R.conns.getD slot none with
+    | none => w
+    | some key =>
+      match connFlags w me R key with
+      | none => w
+      | some (hasData, hasBorrows) =>
+        if hasData || hasBorrows then
+          if R.tbr.length < R.tbrCap then setRcv w me { R with tbr := R.tbr ++ [key] }
+          else
+            -- expired connection buffer exceeded
+            let w :=
+              match findTbr w me R (fun d b => !(d || b)) R.tbr 0 with
+              | some (i, k) => rcvDropConn (setRcv w me { R with tbr := R.tbr.eraseIdx i }) me k
+              | none =>
+                if hasBorrows then
+                  match findTbr w me R (fun _ b => !b) R.tbr 0 with
+                  | some (i, k) => rcvDropConn (setRcv w me { R with tbr := R.tbr.eraseIdx i }) me k
+                  | none => w
+                else w
+            match getRcv w me with
+            | none => w
+            | some R =>
+              if R.tbr.length < R.tbrCap then setRcv w me { R with tbr := R.tbr ++ [key] }
+              else if hasBorrows then { w with panicked := true }
+              else rcvDropConn w me key
+        else rcvDropConn w me key
+
+/-- `Receiver::create` (`Connection::new`: `create_receiver`); `n` = the sender's number of chunks -/
+def rcvCreateConn (w : World) (me : Pid) (slot : Nat) (f : Pid) (n : Nat) : World :=
+  match getRcv w me with
+  | none => w
+  | some R =>
+    let w := match getConn w f me with
+      | some c => setConn w f me { c with rAtt := true }
+      | none => setConn w f me { newConn R.cap R.overflow R.maxBorrow R.nChan n R.init with rAtt := true }
+    match smInsert R.storage f with
+    | (m, some key) => setRcv w me { R with storage := m, conns := R.conns.set slot (some key) }
+    | (_, none) => { w with panicked := true }
+
+/-- `Receiver::update_connection`; returns the world and the tagged key -/
+def rcvUpdateConn (w : World) (me : Pid) (slot : Nat) (f : Pid) (n : Nat) : World × Option Nat :=
+  match getRcv w me with
+  | none => (w, none)
+  | some R =>
+    let connected :=
+      match R.conns.getD slot none with
+      | none => none
+      | some key => match smGet R.storage key with
+        | some f' => if f' = f then some key else none
+        | none => none
+    match connected with
+    | some key => (w, some key)
+    | none =>
+      let w := rcvCreateConn (rcvPrepareRemoval w me slot) me slot f n
+      (w, match getRcv w me with
+          | some R' => R'.conns.getD slot none
+          | none => none)
+
+/-- `Receiver::finish_update_connection_cycle` -/
+def rcvFinish (w : World) (me : Pid) (tagged : List Nat) : Nat → Nat → World
+  | 0, _ => w
+  | fuel + 1, n =>
+    match getRcv w me with
+    | none => w
+    | some R =>
+      if n ≥ R.conns.length then w else
+      let w :=
+        match R.conns.getD n none with
+        | none => w
+        | some key =>
+          if (smGet R.storage key).isSome && !tagged.contains key then
+            let w := rcvPrepareRemoval w me n
+            match getRcv w me with
+            | some R' => setRcv w me { R' with conns := R'.conns.set n none }
+            | none => w
+          else w
+      rcvFinish w me tagged fuel (n + 1)
+
+inductive RecvRes where
+  | none | maxBorrow | some (h : Held) (m : Msg)
+deriving Repr
+
+/-- `Receiver::receive_from_connection` (-> `ZeroCopyReceiver::receive`) -/
+def recvFromConn (w : World) (me : Pid) (R : Rcv) (key ch : Nat) : World × RecvRes :=
+  match smGet R.storage key with
+  | none => (w, .none)
+  | some f =>
+    match getConn w f me with
+    | none => (w, .none)
+    | some c =>
+      match c.chan ch with
+      | none => (w, .none)
+      | some x =>
+        if x.borrow ≥ c.maxBorrow then (w, .maxBorrow)
+        else match x.sub with
+          | [] => (w, .none)
+          | e :: rest =>
+            (setConn w f me (c.setChan ch { x with sub := rest, borrow := x.borrow + 1 }),
+             .some { key := key, origin := f, chunk := e.chunk, channel := ch } e.msg)
+
+def connBorrow (w : World) (me f : Pid) (ch : Nat) : Nat × Nat :=
+  match getConn w f me with
+  | some c => ((match c.chan ch with | some x => x.borrow | none => 0), c.maxBorrow)
+  | none => (0, 0)
+
+/-- `receive_from_to_be_removed_connections`.  `i` = absolute scan position. -/
+def recvTbr (w : World) (me : Pid) (ch : Nat) : Nat → Nat → World × RecvRes
+  | 0, _ => (w, .none)
+  | fuel + 1, i =>
+    match getRcv w me with
+    | none => (w, .none)
+    | some R =>
+      match R.tbr[i]? with
+      | none => (w, .none)
+      | some key =>
+        match smGet R.storage key with
+        | none => recvTbr (setRcv w me { R with tbr := R.tbr.eraseIdx i }) me ch fuel i
+        | some f =>
+          let (borrow, maxB) := connBorrow w me f ch
+          if borrow = maxB then recvTbr w me ch fuel (i + 1)
+          else
+            match recvFromConn w me R key ch with
+            | (w', .some h m) => (w', .some h m)
+            | (w', .maxBorrow) => (w', .maxBorrow)
+            | (w', .none) =>
+              let hasBorrows := match connFlags w' me R key with | some (_, b) => b | none => false
+              if hasBorrows then recvTbr w' me ch fuel (i + 1)
+              else
+                let w' := setRcv w' me { R with tbr := R.tbr.eraseIdx i }
+                recvTbr (rcvDropConn w' me key) me ch fuel i
+
+structure ScanAcc where
+  active : Nat := 0
+  allMax : Bool := true
+
+/-- the loop over `connection_storage.iter()` in `Receiver::receive` -/
+def recvScan (w : World) (me : Pid) (R : Rcv) (ch : Nat) : List (Nat × Pid) → ScanAcc → World × RecvRes × ScanAcc
+  | [], acc => (w, .none, acc)
+  | (key, f) :: r, acc =>
+    match getConn w f me with
+    | none => recvScan w me R ch r acc
+    | some c =>
+      match c.chan ch with
+      | none => recvScan w me R ch r acc
+      | some x =>
+        if x.sub.isEmpty then recvScan w me R ch r acc
+        else
+          let acc := { acc with active := acc.active + 1 }
+          if x.borrow ≥ c.maxBorrow then recvScan w me R ch r acc
+          else
+            let acc := { acc with allMax := false }
+            match recvFromConn w me R key ch with
+            | (w', .some h m) => (w', .some h m, acc)
+            | (w', .maxBorrow) => (w', .maxBorrow, acc)
+            | (w', .none) => recvScan w' me R ch r acc
+
+/-- `Receiver::receive` -/
+def rcvReceive (w : World) (me : Pid) (ch : Nat) : World × RecvRes :=
+  match getRcv w me with
+  | none => (w, .none)
+  | some R =>
+    match recvTbr w me ch (R.tbr.length + 1) 0 with
+    | (w', .some h m) => (w', .some h m)
+    | (w', .maxBorrow) => (w', .maxBorrow)
+    | (w', .none) =>
+      match getRcv w' me with
+      | none => (w', .none)
+      | some R' =>
+        match recvScan w' me R' ch (SlotMap.items R'.storage) {} with
+        | (w'', .some h m, _) => (w'', .some h m)
+        | (w'', .maxBorrow, _) => (w'', .maxBorrow)
+        | (w'', .none, acc) => if acc.allMax && acc.active ≠ 0 then (w'', .maxBorrow) else (w'', .none)
+
+/-- `Receiver::release_offset` -/
+def rcvRelease (w : World) (me : Pid) (h : Held) : World :=
+  match getRcv w me with
+  | none => w
+  | some R =>
+    match smGet R.storage h.key with
+    | none => w
+    | some f =>
+      if f ≠ h.origin then w else
+      match getConn w f me with
+      | none => w
+      | some c =>
+        match c.chan h.channel with
+        | none => w
+        | some x =>
+          -- completion queue capacity = buffer + max borrowed + 1
+          if x.comp.length < c.cap + c.maxBorrow + 1 then
+            setConn w f me (c.setChan h.channel { x with comp := x.comp ++ [h.chunk], borrow := x.borrow - 1 })
+          else w
+
+/-- apply `f` to channel `ch` of every connection in the storage (`set_channel_state`,
+`set_disconnect_hint`, `close_channel` of `Receiver`) -/
+def rcvMapChan (w : World) (me : Pid) (ch : Nat) (g : Chan → Chan) : List (Nat × Pid) → World
+  | [] => w
+  | (_, f) :: r =>
+    let w := match getConn w f me with
+      | some c => (match c.chan ch with
+                   | some x => setConn w f me (c.setChan ch (g x))
+                   | none => w)
+      | none => w
+    rcvMapChan w me ch g r
+
+/-- `at_least_one_channel_has_state` / `has_chunks` -/
+def rcvAnyChan (w : World) (me : Pid) (ch : Nat) (g : Chan → Bool) : List (Nat × Pid) → Bool
+  | [] => false
+  | (_, f) :: r =>
+    (match getConn w f me with
+     | some c => (match c.chan ch with | some x => g x | none => false)
+     | none => false) || rcvAnyChan w me ch g r
+
+/-- the `Receiver` is dropped -/
+def rcvDestroyKeys (w : World) (me : Pid) : List (Nat × Pid) → World
+  | [] => w
+  | (_, f) :: r => rcvDestroyKeys (detachReceiver w f me) me r
+
+/-! ### the update cycle of a port (`force_update_connections` of client and server) -/
+
+/-- the `for_each` over the peer list: receiver connection first, then sender connection -/
+def portUpdateSlots (w : World) (me : Pid) (peerSrv : Bool) (sndCap : Nat) :
+    List (Option (Nat × Nat)) → Nat → List Nat → List Nat → World × List Nat × List Nat
+  | [], _, st, rt => (w, st, rt)
+  | none :: r, i, st, rt => portUpdateSlots w me peerSrv sndCap r (i + 1) st rt
+  | some (peer, n) :: r, i, st, rt =>
+    let t : Pid := ⟨peerSrv, peer⟩
+    let (w, key) := rcvUpdateConn w me i t n
+    let rt := match key with | some k => k :: rt | none => rt
+    let w := sndUpdateConn w me i t sndCap
+    portUpdateSlots w me peerSrv sndCap r (i + 1) (i :: st) rt
+
+def rcvSlots (w : World) (me : Pid) : Nat := match getRcv w me with | some R => R.conns.length | none => 0
+def sndSlots (w : World) (me : Pid) : Nat := match getSnd w me with | some S => S.conns.length | none => 0
+
+/-- `ClientSharedState::force_update_connections` -/
+def clientForceUpdate (w : World) (c : Nat) : World :=
+  match getCl w c with
+  | none => w
+  | some C =>
+    let (w, st, rt) := portUpdateSlots w (cid c) true w.cfg.maxActive C.snap 0 [] []
+    let w := rcvFinish w (cid c) rt (rcvSlots w (cid c)) 0
+    sndFinish w (cid c) st (sndSlots w (cid c))
+
+/-- `ClientSharedState::update_connections` -/
+def clientUpdate (w : World) (c : Nat) : World :=
+  match getCl w c with
+  | none => w
+  | some C =>
+    if C.snapCtr = w.serverReg.counter then w
+    else clientForceUpdate (setCl w c { C with snapCtr := w.serverReg.counter, snap := w.serverReg.slots }) c
+
+/-- `SharedServerState::force_update_connections` -/
+def serverForceUpdate (w : World) (s : Nat) : World :=
+  match getSv w s with
+  | none => w
+  | some S =>
+    let (w, st, rt) := portUpdateSlots w (sid s) false w.cfg.respBuf S.snap 0 [] []
+    let w := sndFinish w (sid s) st (sndSlots w (sid s))
+    rcvFinish w (sid s) rt (rcvSlots w (sid s)) 0
+
+/-- `SharedServerState::update_connections` -/
+def serverUpdate (w : World) (s : Nat) : World :=
+  match getSv w s with
+  | none => w
+  | some S =>
+    if S.snapCtr = w.clientReg.counter then w
+    else serverForceUpdate (setSv w s { S with snapCtr := w.clientReg.counter, snap := w.clientReg.slots }) s
+
+/-- both ports of a dropped shared state go: `Sender` and `Receiver` with all their connections -/
+def portDestroy (w : World) (me : Pid) : World :=
+  let w := match getSnd w me with
+    | some S => setSnd (sndDestroySlots w me S.conns) me { S with conns := S.conns.map fun _ => none }
+    | none => w
+  match getRcv w me with
+  | some R =>
+    setRcv (rcvDestroyKeys w me (SlotMap.items R.storage)) me
+      { R with storage := SlotMap.init 0, tbr := [], conns := R.conns.map fun _ => none }
+  | none => w
+
+/-- `ClientSharedState` is dropped when the `Client`, every `PendingResponse` and every `Response` is gone -/
+def clientDestroyIfUnreferenced (w : World) (c : Nat) : World :=
+  match getCl w c with
+  | none => w
+  | some C =>
+    if C.alive || !C.pendings.isEmpty || !C.held.isEmpty || !C.ex then w
+    else
+      let w := { w with clientReg := w.clientReg.remove C.slot }
+      setCl (portDestroy w (cid c)) c { C with ex := false }
+
+/-- `SharedServerState` is dropped when the `Server` and every `ActiveRequest` is gone -/
+def serverDestroyIfUnreferenced (w : World) (s : Nat) : World :=
+  match getSv w s with
+  | none => w
+  | some S =>
+    if S.alive || !S.actives.isEmpty || !S.ex then w
+    else
+      let w := { w with serverReg := w.serverReg.remove S.slot }
+      setSv (portDestroy w (sid s)) s { S with ex := false }
+
+/-! ### API operations -/
+
+inductive Op where
+  | cclient (c : Nat) (maxActive : Option Nat)
+  | dclient (c : Nat)
+  | cserver (s : Nat) (loanPerReq : Option Nat)
+  | dserver (s : Nat)
+  | send (c r tag : Nat)
+  | recvreq (s a : Nat)
+  | respond (s a tag : Nat)
+  | dactive (s a : Nat)
+  | recvresp (c r : Nat)
+  | dresp (c k : Nat)
+  | dpending (c r : Nat)
+  | connected (c r : Nat)
+  | aconnected (s a : Nat)
+  | hint (c r : Nat)
+  | ahint (s a : Nat)
+  | has (c r : Nat)
+  | hasreq (s : Nat)
+  | updC (c : Nat)
+  | updS (s : Nat)
+deriving Repr
+
+def finishPanic (w0 : World) (r : World × String) : World × String :=
+  if r.1.panicked then ({ w0 with panicked := true }, "PANIC") else r
+
+def findPending (C : Client) (r : Nat) : Option Pending := C.pendings.find? (·.label = r)
+def findActive (S : Server) (a : Nat) : Option Active := S.actives.find? (·.label = a)
+
+/-- `Sender::get_connection_id_of` -/
+def connIdOf : List (Option Pid) → Pid → Nat → Option Nat
+  | [], _, _ => none
+  | x :: r, t, i => if x = some t then some i else connIdOf r t (i + 1)
+
+/-- `ActiveRequest::is_connected` / `has_disconnect_hint`: a predicate on the channel of the
+response connection the active request points to -/
+def activeChan (w : World) (s : Nat) (connId : Option Nat) (ch : Nat) : Option Chan :=
+  match connId, getSnd w (sid s) with
+  | some i, some S =>
+    match S.conns.getD i none with
+    | some t => (match getConn w (sid s) t with | some c => c.chan ch | none => none)
+    | none => none
+  | _, _ => none
+
+/-- `ActiveRequest::finish`: `close_channel` on the response connection -/
+def activeFinish (w : World) (s : Nat) (connId : Option Nat) (ch rid : Nat) : World :=
+  match connId, getSnd w (sid s) with
+  | some i, some S =>
+    match S.conns.getD i none with
+    | some t =>
+      match getConn w (sid s) t with
+      | some c => (match c.chan ch with
+                   | some x => setConn w (sid s) t (c.setChan ch (x.close rid))
+                   | none => w)
+      | none => w
+    | none => w
+  | _, _ => w
+
+/-- the loop of `Server::receive` -/
+def serverReceive (w : World) (s : Nat) : Nat → World × Option RecvRes
+  | 0 => (w, some .none)
+  | fuel + 1 =>
+    let w := serverUpdate w s
+    if w.panicked then (w, none) else
+    match rcvReceive w (sid s) 0 with
+    | (w, .none) => (w, some .none)
+    | (w, .maxBorrow) => (w, some .maxBorrow)
+    | (w, .some h m) =>
+      let connId := match getSnd w (sid s) with
+        | some S => connIdOf S.conns (cid m.client) 0
+        | none => none
+      match connId with
+      | some i =>
+        let connected := match activeChan w s (some i) m.channel with
+          | some x => x.hasState m.rid
+          | none => false
+        if !w.cfg.ff && !connected then
+          -- the `ActiveRequest` is dropped again: `release_offset`, `finish`
+          let w := rcvRelease w (sid s) h
+          let w := activeFinish w s (some i) m.channel m.rid
+          serverReceive w s fuel
+        else (w, some (.some h m))
+      | none =>
+        if w.cfg.ff then (w, some (.some h m))
+        else serverReceive w s fuel       -- details and chunk are forgotten, nothing is released
+
+def chansQueued : List Chan → Nat
+  | [] => 0
+  | c :: r => c.sub.length + chansQueued r
+
+/-- number of queued chunks in all connections: bound for the loops of `Server::receive` and
+`PendingResponse::receive` (every further iteration consumes one of them) -/
+def totalQueued : List ((Pid × Pid) × Conn) → Nat
+  | [] => 0
+  | (_, c) :: r => chansQueued c.chans + totalQueued r
+
+/-- the loop of `PendingResponse::receive`: responses of other requests are dropped -/
+def pendingReceive (w : World) (c : Nat) (p : Pending) : Nat → World × Option RecvRes
+  | 0 => (w, some .none)
+  | fuel + 1 =>
+    let w := clientUpdate w c
+    if w.panicked then (w, none) else
+    match rcvReceive w (cid c) p.channel with
+    | (w, .none) => (w, some .none)
+    | (w, .maxBorrow) => (w, some .maxBorrow)
+    | (w, .some h m) =>
+      if m.rid ≠ p.rid then pendingReceive (rcvRelease w (cid c) h) c p fuel
+      else (w, some (.some h m))
+
+def step (w : World) : Op → World × String
+  | .cclient c ma =>
+    if (getCl w c).isSome then (w, "dup") else
+    -- `Client::new`
+    let active := match ma with | some m => clamp1 m | none => w.cfg.maxActive
+    if w.cfg.maxActive < active then (w, "err:MaxActiveRequestsExceedsMaxSupportedActiveRequestsOfService") else
+    let n := w.cfg.clientChunks w.cfg.maxLoans active
+    let S : Snd := { n := n, free := List.range n, rc := List.replicate n 0,
+                     maxLoans := w.cfg.maxLoans + w.cfg.maxActive + w.cfg.maxActive,
+                     conns := List.replicate w.cfg.maxServers none, nChan := 1, init := .id 0 false,
+                     overflow := w.cfg.ovReq, rMaxBorrow := w.cfg.maxActive }
+    let R : Rcv := { conns := List.replicate w.cfg.maxServers none,
+                     storage := SlotMap.init (w.cfg.cExpired + w.cfg.maxServers), tbrCap := w.cfg.cExpired,
+                     nChan := w.cfg.nChannels, init := .closed, cap := w.cfg.respBuf,
+                     overflow := w.cfg.ovResp, maxBorrow := w.cfg.maxBorrow }
+    let C : Client := { maxActive := active, snapCtr := w.serverReg.counter, snap := w.serverReg.slots,
+                        chanIds := List.range n }
+    let w1 := clientForceUpdate (setRcv (setSnd (setCl w c C) (cid c) S) (cid c) R) c
+    match w1.clientReg.add (c, n), getCl w1 c with
+    | some (reg, slot), some C1 => finishPanic w ({ setCl w1 c { C1 with slot := slot } with clientReg := reg }, "ok")
+    | _, _ =>
+      -- the port is dropped again: its connections are closed, nothing else remains
+      let w2 := portDestroy w1 (cid c)
+      finishPanic w ({ w2 with clients := AMap.del w2.clients c, snds := AMap.del w2.snds (cid c), rcvs := AMap.del w2.rcvs (cid c) },
+                     "err:ExceedsMaxSupportedClients")
+  | .dclient c =>
+    match getCl w c with
+    | none => (w, "none")
+    | some C =>
+      if !C.alive then (w, "none") else
+      (clientDestroyIfUnreferenced (setCl w c { C with alive := false }) c, "ok")
+  | .cserver s ml =>
+    if (getSv w s).isSome then (w, "dup") else
+    -- `Server::new`
+    let lpr := match ml with | some m => clamp1 m | none => w.cfg.defLoanPerReq
+    let n := w.cfg.serverChunks lpr
+    let S : Snd := { n := n, free := List.range n, rc := List.replicate n 0,
+                     maxLoans := lpr * w.cfg.maxActive * w.cfg.maxClients,
+                     conns := List.replicate w.cfg.maxClients none, nChan := w.cfg.nChannels, init := .closed,
+                     overflow := w.cfg.ovResp, rMaxBorrow := w.cfg.maxBorrow }
+    let R : Rcv := { conns := List.replicate w.cfg.maxClients none,
+                     storage := SlotMap.init (w.cfg.sExpired + w.cfg.maxClients), tbrCap := w.cfg.sExpired,
+                     nChan := 1, init := .id 0 false, cap := w.cfg.maxActive,
+                     overflow := w.cfg.ovReq, maxBorrow := w.cfg.maxActive }
+    let V : Server := { loanPerReq := lpr, snapCtr := w.clientReg.counter, snap := w.clientReg.slots }
+    let w1 := serverForceUpdate (setRcv (setSnd (setSv w s V) (sid s) S) (sid s) R) s
+    match w1.serverReg.add (s, n), getSv w1 s with
+    | some (reg, slot), some V1 => finishPanic w ({ setSv w1 s { V1 with slot := slot } with serverReg := reg }, "ok")
+    | _, _ =>
+      let w2 := portDestroy w1 (sid s)
+      finishPanic w ({ w2 with servers := AMap.del w2.servers s, snds := AMap.del w2.snds (sid s), rcvs := AMap.del w2.rcvs (sid s) },
+                     "err:ExceedsMaxSupportedServers")
+  | .dserver s =>
+    match getSv w s with
+    | none => (w, "none")
+    | some S =>
+      if !S.alive then (w, "none") else
+      (serverDestroyIfUnreferenced (setSv w s { S with alive := false }) s, "ok")
+  | .send c r tag =>
+    match getCl w c with
+    | none => (w, "none")
+    | some C0 =>
+      if !C0.alive then (w, "none") else
+      if C0.usedLabels.contains r then (w, "dup") else
+      -- `Client::loan_chunk`: `Sender::allocate`
+      let w := retrieveReturned w (cid c)
+      match getSnd w (cid c) with
+      | none => (w, "none")
+      | some S =>
+        match S.allocate with
+        | (_, .exceedsMaxLoans) => (w, "err:loan:ExceedsMaxLoans")
+        | (_, .outOfMemory) => (w, "err:loan:OutOfMemory")
+        | (_, .corrupted) => ({ w with panicked := true }, "PANIC")
+        | (S, .ok chunk) =>
+          let w := setSnd w (cid c) S
+          match C0.chanIds with
+          | [] => ({ w with panicked := true }, "PANIC")
+          | ch :: ids =>
+            let rid := C0.ridCtr
+            let C := { C0 with chanIds := ids, ridCtr := C0.ridCtr + 1 }
+            -- `RequestMut::send` -> `ClientSharedState::send_request`
+            if C.maxActive ≤ C.activeCnt then
+              -- the `RequestMut` is dropped: `release_request`, `return_loaned_chunk`
+              let w := setCl w c { C with chanIds := C.chanIds ++ [ch] }
+              (setSnd w (cid c) (S.returnLoan chunk), "err:send:ExceedsMaxActiveRequests")
+            else
+              let w0 := w
+              let w := clientUpdate (setCl w c C) c
+              if w.panicked then ({ w0 with panicked := true }, "PANIC") else
+              match getCl w c, getRcv w (cid c) with
+              | some C, some R =>
+                -- `prepare_channel_to_receive_responses`
+                let w := rcvMapChan w (cid c) ch (fun x => x.setState rid) (SlotMap.items R.storage)
+                let w := retrieveReturned w (cid c)
+                let slots := match getSnd w (cid c) with | some S => S.conns | none => []
+                let msg : Msg := { client := c, channel := ch, rid := rid, tag := tag }
+                let (w, cnt) := deliverAll w (cid c) 0 { chunk := chunk, msg := msg } slots 0
+                let P : Pending := { label := r, rid := rid, channel := ch, chunk := chunk, tag := tag }
+                (setCl w c { C with activeCnt := C.activeCnt + 1, pendings := C.pendings ++ [P], usedLabels := r :: C.usedLabels }, s!"ok:{cnt}")
+              | _, _ => (w, "none")
+  | .recvreq s a =>
+    match getSv w s with
+    | none => (w, "none")
+    | some V0 =>
+      if !V0.alive then (w, "none") else
+      if V0.usedLabels.contains a then (w, "dup") else
+      match serverReceive w s (totalQueued w.conns + 1) with
+      | (_, none) => ({ w with panicked := true }, "PANIC")
+      | (w1, some .none) => (w1, "none")
+      | (w1, some .maxBorrow) => (w1, "err:ExceedsMaxBorrows")
+      | (w1, some (.some h m)) =>
+        match getSv w1 s, getSnd w1 (sid s) with
+        | some V, some S =>
+          let A : Active := { label := a, det := h, connId := connIdOf S.conns (cid m.client) 0, msg := m }
+          (setSv w1 s { V with actives := V.actives ++ [A], usedLabels := a :: V.usedLabels, gRecvReq := V.gRecvReq ++ [(m.client, m.rid)] },
+           s!"some:{h.origin.n}:{m.tag}")
+        | _, _ => (w1, "none")
+  | .respond s a tag =>
+    match getSv w s with
+    | none => (w, "none")
+    | some V0 =>
+      match findActive V0 a with
+      | none => (w, "none")
+      | some A =>
+        -- `ActiveRequest::loan_chunk`: `increment_loan_counter`, `Sender::allocate`
+        if V0.loanPerReq ≤ A.loans then (w, "err:loan:ExceedsMaxLoans") else
+        let setA (w : World) (f : Active → Active) : World :=
+          match getSv w s with
+          | some V => setSv w s { V with actives := V.actives.map fun x => if x.label = a then f x else x }
+          | none => w
+        let w := setA w fun x => { x with loans := x.loans + 1 }
+        let w := retrieveReturned w (sid s)
+        match getSnd w (sid s) with
+        | none => (w, "none")
+        | some S =>
+          match S.allocate with
+          | (_, .exceedsMaxLoans) => (w, "err:loan:ExceedsMaxLoans")
+          | (_, .outOfMemory) => (w, "err:loan:OutOfMemory")
+          | (_, .corrupted) => ({ w with panicked := true }, "PANIC")
+          | (S, .ok chunk) =>
+            let w0 := w
+            let w := setSnd w (sid s) S
+            -- `ResponseMut::send`
+            let w := serverUpdate w s
+            if w.panicked then ({ w0 with panicked := true }, "PANIC") else
+            let stale := match getCl w A.msg.client with | some C => !C.ex | none => true
+            let msg : Msg := { rid := A.msg.rid, server := s, tag := tag, gClient := A.msg.client, gSeq := A.gSent,
+                               gStale := stale }
+            let w := match A.connId with
+              | some i =>
+                let w := retrieveReturned w (sid s)
+                match getSnd w (sid s) with
+                | some S =>
+                  (match S.conns.getD i none with
+                   | some t => (deliverTo w (sid s) t A.msg.channel { chunk := chunk, msg := msg }).1
+                   | none => w)
+                | none => w
+              | none => w
+            -- the `ResponseMut` is dropped
+            let w := setA w fun x => { x with loans := x.loans - 1, gSent := x.gSent + 1 }
+            let w := match getSnd w (sid s) with
+              | some S => setSnd w (sid s) (S.returnLoan chunk)
+              | none => w
+            (w, "ok")
+  | .dactive s a =>
+    match getSv w s with
+    | none => (w, "none")
+    | some V =>
+      match findActive V a with
+      | none => (w, "none")
+      | some A =>
+        -- `ActiveRequest::drop`: `release_offset`, `finish`
+        let w := setSv w s { V with actives := V.actives.filter (·.label ≠ a) }
+        let w := rcvRelease w (sid s) A.det
+        let w := activeFinish w s A.connId A.msg.channel A.msg.rid
+        (serverDestroyIfUnreferenced w s, "ok")
+  | .recvresp c r =>
+    match getCl w c with
+    | none => (w, "none")
+    | some C0 =>
+      match findPending C0 r with
+      | none => (w, "none")
+      | some P =>
+        match pendingReceive w c P (totalQueued w.conns + 1) with
+        | (_, none) => ({ w with panicked := true }, "PANIC")
+        | (w1, some .none) => (w1, "none")
+        | (w1, some .maxBorrow) => (w1, "err:ExceedsMaxBorrows")
+        | (w1, some (.some h m)) =>
+          match getCl w1 c with
+          | none => (w1, "none")
+          | some C =>
+            (setCl w1 c { C with held := C.held ++ [h],
+                                 pendings := C.pendings.map fun x => if x.label = r then { x with gRecv := x.gRecv ++ [m] } else x },
+             s!"some:{h.origin.n}:{m.tag}")
+  | .dresp c k =>
+    match getCl w c with
+    | none => (w, "none")
+    | some C =>
+      match C.held[k]? with
+      | none => (w, "none")
+      | some h =>
+        let w := setCl w c { C with held := C.held.eraseIdx k }
+        let w := rcvRelease w (cid c) h
+        (clientDestroyIfUnreferenced w c, "ok")
+  | .dpending c r =>
+    match getCl w c with
+    | none => (w, "none")
+    | some C =>
+      match findPending C r with
+      | none => (w, "none")
+      | some P =>
+        -- `PendingResponse::drop`: counter, `close`; then the `RequestMut`: `release_request`, `return_loaned_chunk`
+        let w := setCl w c { C with activeCnt := C.activeCnt - 1, pendings := C.pendings.filter (·.label ≠ r),
+                                    chanIds := C.chanIds ++ [P.channel] }
+        let w := match getRcv w (cid c) with
+          | some R => rcvMapChan w (cid c) P.channel (fun x => x.close P.rid) (SlotMap.items R.storage)
+          | none => w
+        let w := match getSnd w (cid c) with
+          | some S => setSnd w (cid c) (S.returnLoan P.chunk)
+          | none => w
+        (clientDestroyIfUnreferenced w c, "ok")
+  | .connected c r =>
+    match getCl w c with
+    | none => (w, "none")
+    | some C =>
+      match findPending C r, getRcv w (cid c) with
+      | some P, some R =>
+        (w, if rcvAnyChan w (cid c) P.channel (fun x => x.hasState P.rid) (SlotMap.items R.storage) then "true" else "false")
+      | _, _ => (w, "none")
+  | .aconnected s a =>
+    match getSv w s with
+    | none => (w, "none")
+    | some V =>
+      match findActive V a with
+      | none => (w, "none")
+      | some A =>
+        (w, match activeChan w s A.connId A.msg.channel with
+            | some x => if x.hasState A.msg.rid then "true" else "false"
+            | none => "false")
+  | .hint c r =>
+    match getCl w c with
+    | none => (w, "none")
+    | some C =>
+      match findPending C r, getRcv w (cid c) with
+      | some P, some R => (rcvMapChan w (cid c) P.channel (fun x => x.setHint P.rid) (SlotMap.items R.storage), "ok")
+      | _, _ => (w, "none")
+  | .ahint s a =>
+    match getSv w s with
+    | none => (w, "none")
+    | some V =>
+      match findActive V a with
+      | none => (w, "none")
+      | some A =>
+        (w, match activeChan w s A.connId A.msg.channel with
+            | some x => if x.hasHint A.msg.rid then "true" else "false"
+            | none => "false")
+  | .has c r =>
+    match getCl w c with
+    | none => (w, "none")
+    | some C =>
+      match findPending C r, getRcv w (cid c) with
+      | some P, some R =>
+        (w, if rcvAnyChan w (cid c) P.channel (fun x => !x.sub.isEmpty) (SlotMap.items R.storage) then "true" else "false")
+      | _, _ => (w, "none")
+  | .hasreq s =>
+    match getSv w s with
+    | none => (w, "none")
+    | some V0 =>
+      if !V0.alive then (w, "none") else
+      let w1 := serverUpdate w s
+      if w1.panicked then ({ w with panicked := true }, "PANIC") else
+      match getRcv w1 (sid s) with
+      | none => (w1, "none")
+      | some R =>
+        let items := SlotMap.items R.storage
+        -- `has_chunks` / `has_chunks_in_active_connection`
+        let items := if w1.cfg.ff then items else items.filter fun e => R.conns.contains (some e.1)
+        (w1, if rcvAnyChan w1 (sid s) 0 (fun x => !x.sub.isEmpty) items then "true" else "false")
+  | .updC c =>
+    match getCl w c with
+    | none => (w, "none")
+    | some C => if !C.alive then (w, "none") else finishPanic w (clientUpdate w c, "ok")
+  | .updS s =>
+    match getSv w s with
+    | none => (w, "none")
+    | some V => if !V.alive then (w, "none") else finishPanic w (serverUpdate w s, "ok")
+
+/-! ### reachability -/
+
+/-- what the service builder guarantees about a created service (zero limits are raised to one) -/
+def Cfg.Sane (c : Cfg) : Prop :=
+  1 ≤ c.maxClients ∧ 1 ≤ c.maxServers ∧ 1 ≤ c.maxActive ∧ 1 ≤ c.respBuf ∧ 1 ≤ c.maxBorrow ∧ 1 ≤ c.maxLoans ∧
+  1 ≤ c.defLoanPerReq
+
+instance (c : Cfg) : Decidable c.Sane := by unfold Cfg.Sane; exact inferInstance
+
+def run (w : World) (ops : List Op) : World := ops.foldl (fun w op => (step w op).1) w
+
+/-- the states an application can reach through API calls; a (fatal) panic ends the history -/
+inductive Reach (c : Cfg) : World → Prop
+  | init : Reach c (World.init c)
+  | step {w : World} (op : Op) : Reach c w → w.panicked = false → Reach c (step w op).1
+
 end Iox2.ReqRes
